@@ -193,7 +193,7 @@ pub fn run_one(env: &Env, index: u64, stats: &mut Stats) -> (Vec<Found>, u64, u6
             let (vs, out, distinct) = props::check_c16(&c, &seeds);
             record_common(stats, &sc, &c, &out);
             maybe_sample(stats, index, seed, &sc, &c, &out);
-            stats.add("c16.compilations", seeds.len() as u64 + 2);
+            stats.add("c16.compilations", seeds.len() as u64 + 4 + props::canaries().len() as u64);
             if distinct > 1 {
                 stats.inc("c16.scenarios_with_divergence");
             }
@@ -315,23 +315,31 @@ pub fn worker_main(prop: &str, batch_seed: u64, start: u64, end: u64, stride: u6
                 continue;
             }
             let seed = run_seed(batch_seed, prop, index);
-            let (min, used) = if prop == "C12" {
+            let mut f = f;
+            let history_class = f.violation.class == "worker-thread-history";
+            if history_class {
+                // the state that matters was left by earlier runs of this worker thread: record which
+                f.extra.put("worker_history", J::obj().set("start", J::u(start)).set("stride", J::u(stride)).set("index", J::u(index)).set("verif_seed", J::u(batch_seed)));
+            }
+            let (min, used) = if prop == "C12" || history_class {
                 (f.concrete.clone(), 0)
             } else {
                 let test = |c: &Concrete| reproduces(prop, c, &f.extra, &env.preamble, &id).is_some();
                 minimise(&f.concrete, f.scenario.as_ref(), &test, env.minimise_budget)
             };
             let mut f2 = Found { violation: f.violation.clone(), concrete: f.concrete.clone(), scenario: f.scenario.clone(), extra: f.extra.clone(), outcome_events: f.outcome_events.clone() };
-            if let Some(vmin) = reproduces(prop, &min, &f.extra, &env.preamble, &id) {
-                f2.violation.detail = vmin.detail;
+            if !history_class {
+                if let Some(vmin) = reproduces(prop, &min, &f.extra, &env.preamble, &id) {
+                    f2.violation.detail = vmin.detail;
+                }
             }
-            let doc = replay_doc(prop, batch_seed, index, seed, &f2, Some((&min, used)));
+            let doc = replay_doc(prop, batch_seed, index, seed, &f2, if history_class { None } else { Some((&min, used)) });
             let _ = writeln!(out, "V {}", doc.to_string());
             let _ = out.flush();
         }
         index += stride;
         runs_since_flush += 1;
-        if runs_since_flush >= 1000 {
+        if runs_since_flush >= 250 {
             // periodic delta, so that a later crash of this process loses little
             let _ = writeln!(out, "S {}", stats.to_json().to_string());
             stats = Stats::default();
@@ -342,4 +350,38 @@ pub fn worker_main(prop: &str, batch_seed: u64, start: u64, end: u64, stride: u6
     let _ = out.flush();
     exec::clean_root(scratch);
     let _ = std::fs::remove_dir(scratch);
+}
+
+/// Re-runs, in the current thread, everything a worker did before `index` (replay of history-dependent classes).
+pub fn rerun_worker_history(prop: &str, batch_seed: u64, start: u64, stride: u64, index: u64, audit: bool) {
+    let env = Env {
+        corpus: crate::corpus::load(),
+        preamble: props::preamble_text(),
+        prop: prop.to_string(),
+        batch_seed,
+        audit,
+        minimise_budget: 0,
+    };
+    let mut stats = Stats::default();
+    let mut i = start;
+    while i < index {
+        let _ = run_one(&env, i, &mut stats);
+        i += stride.max(1);
+    }
+}
+
+/// (scenario fnv, history fnv) of run `index` after the history a worker with this start/stride has.
+pub fn audit_pair_after_history(prop: &str, batch_seed: u64, start: u64, stride: u64, index: u64) -> (u64, u64) {
+    rerun_worker_history(prop, batch_seed, start, stride, index, true);
+    let env = Env {
+        corpus: crate::corpus::load(),
+        preamble: props::preamble_text(),
+        prop: prop.to_string(),
+        batch_seed,
+        audit: true,
+        minimise_budget: 0,
+    };
+    let mut stats = Stats::default();
+    let (_, s, h) = run_one(&env, index, &mut stats);
+    (s, h)
 }
